@@ -170,6 +170,10 @@ class Evaluator:
             return True
         if isinstance(e, ast.BinOp):
             a, b = self.ev(e.left), self.ev(e.right)
+            if isinstance(e.op, ast.Add) and type(a) is type(b) and isinstance(a, (bytes, str, tuple)):
+                return a + b
+            if isinstance(e.op, ast.Mult) and isinstance(a, (bytes, str, tuple)) and isinstance(b, int) and 0 <= b < 10000:
+                return a * b
             if not isinstance(a, int) or not isinstance(b, int):
                 raise Unsupported(e)
             op = e.op
@@ -269,6 +273,25 @@ class Evaluator:
                 if o is not None:
                     return o
             return None
+        if isinstance(st, ast.While) and not st.orelse:
+            n = 0
+            while self.ev(st.test):
+                n += 1
+                if n > 5000:
+                    raise Unsupported(st, "loop bound exceeded (non-terminating on the model)")
+                brk = False
+                for s in st.body:
+                    o = self.step(s)
+                    if o is not None:
+                        if o.kind == "continue":
+                            break
+                        if o.kind == "break":
+                            brk = True
+                            break
+                        return o
+                if brk:
+                    break
+            return None
         if isinstance(st, ast.For) and isinstance(st.target, ast.Tuple) and isinstance(st.iter, ast.Call) and isinstance(st.iter.func, ast.Name) \
                 and st.iter.func.id == "enumerate" and len(st.target.elts) == 2 and all(isinstance(x, ast.Name) for x in st.target.elts) and not st.orelse:
             seq = self.ev(st.iter.args[0])
@@ -306,6 +329,13 @@ class Evaluator:
                 raise Unsupported(st)
             if isinstance(tgt, ast.Name) and st.value is not None:
                 self.env[tgt.id] = self.ev(st.value)
+                return None
+            if isinstance(tgt, (ast.Tuple, ast.List)) and st.value is not None and all(isinstance(x, ast.Name) for x in tgt.elts):
+                v = self.ev(st.value)
+                if not isinstance(v, tuple) or len(v) != len(tgt.elts):
+                    raise Unsupported(st)
+                for x, y in zip(tgt.elts, v):
+                    self.env[x.id] = y
                 return None
             if isinstance(tgt, ast.Attribute) and st.value is not None:
                 self.env[ast.unparse(tgt)] = self.ev(st.value)
